@@ -144,6 +144,9 @@ def spec_format(p):
 def oracle_C03(ctx, cases, answers):
     v = []
     for i, (c, a) in enumerate(zip(cases, answers)):
+        if " s=PANIC" in a and not c["req"].startswith("shape ") and ("p=OK:" in a or "b=OK:" in a):
+            v.append((i, "to_string() of a PURL with a built-in type parameter panics instead of producing the documented string"))
+            continue
         for label, p, s in ok_purls(a):
             if s is None or "bad" in p:
                 continue
